@@ -20,7 +20,9 @@ RULE = ("all multisets of rows (x, group, label) with one discrete feature of k 
         "non-trivial = some constraint is active at the unconstrained optimum; distinct = distinct (dataset)")
 ASSUMPTIONS = ["scipy HiGHS is used only as reference optimum for each enumerated instance (tolerance 1e-7)",
                "hypothesis class = all 2^k functions of the discrete feature, so the exact learner really is exact and constants are in the class"]
-CLASSES = ["support_not_a_sorted_prefix", "lp_step_off", "max_iter_1", "early_stop", "ratio_bound", "three_groups", "constraint_active", "mixture_of_several"]
+CLASSES = ["lp_step_off", "max_iter_1", "ratio_bound", "three_groups"]
+# classes whose occurrence depends on implementation internals (reported, warned about when absent, never a hard vacuity error)
+SOFT_CLASSES = ["support_not_a_sorted_prefix", "early_stop", "mixture_of_several", "constraint_active"]
 
 
 def bounds(tier, seed):
